@@ -207,6 +207,9 @@ let main_seq file do_abs =
             else Printf.printf "S e%s enum REPLY=1 NABS=0 NWF=0 ALLOC=1\n" id
           | None -> ());
          enum := None
+       | "W" :: id :: res :: rest ->
+         if res = "same" then Printf.printf "S w%s twin REPLY=1 NABS=0 NWF=0 ALLOC=1\n" id
+         else Printf.printf "S w%s twin REPLY=0 NABS=0 NWF=0 ALLOC=1 expected=restart-equivalence observed_code=0 twin=%s\n" id (String.concat "_" rest)
        | "L" :: rest -> ltrace := rest
        | "K" :: i :: enc :: _ -> kinodes := (n_of_string i, bytes_of_hex enc) :: !kinodes
        | "KD" :: i :: _ :: n :: rest ->
